@@ -53,6 +53,7 @@ def _zflip(d):
     return z3.If(d == IDX[PortDir.INPUT], IDX[PortDir.OUTPUT], z3.If(d == IDX[PortDir.OUTPUT], IDX[PortDir.INPUT], d))
 
 
+@guarded("koi", "hdl21.elab.passes.flatten_bundles:BundleFlattener.flatten_bundle_inst_helper")
 def obligations():
     ext = loader.extract(KEY)
     info = {"sha": ext.sha, "lines": ext.lines, "path": ext.path, "paths": 0, "scenarios": 0, "unsupported": []}
